@@ -120,8 +120,8 @@ def large_pool():
     return [('large', struct.pack('!III', a, b, c)) for a, b, c in itertools.product(vals, repeat=3)]
 
 
-def world():
-    return W.replay({}, EST, M)
+def world(cfg=None):
+    return W.replay(cfg or {}, EST, M)
 
 
 def decode_attr(code, value):
@@ -185,12 +185,32 @@ def roundtrip(w, code, raw_items, endpoint='json_to_bin'):
     return None, None
 
 
+# non-default local configurations under which the same texts must be accepted: 4-octet AS support switched off locally
+# (the peer still announces it), capabilities reduced
+LOCAL_CFGS = {'x': None, 'as4-off': {'four_bytes_as': False}, 'caps-off': {'route_refresh': False, 'cisco_route_refresh': False, 'graceful_restart': False}}
+
+
+def oversize_posts(w):
+    """lists too long for one attribute without the extended-length form (64 / 300 communities, 40 extended, 30 large): the agent
+    may refuse or encode them - what matters is that the posts of this task that follow are handled as in a fresh process"""
+    for code, texts in ((8, ['65001:%d' % i for i in range(64)]), (8, ['65001:%d' % i for i in range(300)]),
+                        (16, ['route-target:65001:%d' % i for i in range(40)]), (32, ['65001:1:%d' % i for i in range(30)])):
+        body = {'attr': {'1': 0, '2': [], '3': '10.0.0.1', str(code): texts}, 'nlri': ['10.9.0.0/16']}
+        for path in ('/v1/peer/<ip>/json_to_bin', '/v1/peer/<ip>/send/update'):
+            try:
+                w.rest('POST', path, json=body)
+                w.sim.drain_threads()
+            except Exception:      # noqa  (a refusal of any kind is fine)
+                pass
+
+
 def task(args):
     kind, items = args
-    w = world()
+    w = world(LOCAL_CFGS.get(kind))
     v = []
     classes = set()
     n = 0
+    oversize_posts(w)
     for entry in items:
         code, labels, raws = entry
         for endpoint in ('json_to_bin', 'send/update'):
@@ -200,7 +220,7 @@ def task(args):
             if sym:
                 d = {'attr': code, 'kinds': labels, 'bytes': [r.hex() for r in raws], 'endpoint': endpoint}
                 d.update(det or {})
-                v.append(('C17|%s|%s|%s' % ({16: 'ext', 8: 'community', 32: 'large'}[code], '+'.join(labels), sym), d))
+                v.append(('C17|%s|%s|%s%s' % ({16: 'ext', 8: 'community', 32: 'large'}[code], '+'.join(labels), sym, '' if kind == 'x' else '|local ' + kind), d))
     return n, v, classes
 
 
@@ -229,8 +249,15 @@ def run(tier, seed):
         pairs.append((8, (k1, k2), [b1, b2]))
     lp = large_pool()
     pairs += [(32, ('large', 'large'), [lp[i][1], lp[-1 - i][1]]) for i in range(0, len(lp), 3)]
-    items = singles + pairs
+    # long lists that still fit one attribute (255 value octets): 50 / 51 / 63 communities, 31 extended, 21 large
+    cvals = [struct.pack('!I', (65001 << 16) | i) for i in range(63)]
+    longs = [(8, ('n=%d' % k,), cvals[:k]) for k in (50, 51, 60, 63)]
+    longs.append((16, ('n=31',), [bytes.fromhex('0002fde9') + struct.pack('!I', i) for i in range(31)]))
+    longs.append((32, ('n=21',), [struct.pack('!III', 65001, 1, i) for i in range(21)]))
+    items = singles + pairs + longs
     tasks = [('x', items[i:i + 150]) for i in range(0, len(items), 150)]
+    for kind in ('as4-off', 'caps-off'):
+        tasks += [(kind, singles[i:i + 150]) for i in range(0, len(singles), 150)]
     res = explore.pmap(task, tasks, chunk=1)
     explore.close_pool()
     total = 0
@@ -246,7 +273,7 @@ def run(tier, seed):
         'rule': 'from bytes: %d extended communities (18 type codes x field boundary values), %d communities (all 11 well-known values + '
                 'boundary values), %d large communities (each field in {0,1,2^31,2^32-1}); each decoded by the agent, the text posted '
                 'to POST /v1/peer/<ip>/json_to_bin AND to POST /v1/peer/<ip>/send/update (which has its own copy of the text-to-value code; bytes read from the transport) in an Established 4-octet-AS session, the produced attribute compared by the reference '
-                'reading of the value and re-decoded; plus all ordered pairs of different kinds, and pairs / triples of the same kind with different values, in one request. distinct = (attribute, '
+                'reading of the value and re-decoded; plus all ordered pairs of different kinds, and pairs / triples of the same kind with different values, in one request; lists of 50..63 communities / 31 extended / 21 large (the longest one attribute holds); every task first posts oversize lists (64, 300 ...) whose outcome is not judged. distinct = (attribute, '
                 'kinds, symptom)' % (len(ext), len(cp), len(lp)),
         'samples': [{'attribute': it[0], 'kinds': list(it[1]), 'bytes': [b.hex() for b in it[2]]} for it in report.pick(items, seed, 3)],
         'singles': len(singles), 'pairs': len(pairs), 'exhaustive': True, 'violation_keys': summary,
